@@ -116,7 +116,7 @@ impl PreBoneDeformer {
             .items
             .iter()
             .find(|x| x.body_id == from_body_id)?;
-        let mut next = &self.header.links[item.link_index as usize];
+        let mut next = self.header.links.get(item.link_index as usize)?;
 
         if next.next_sibling_index == -1 {
             return None;
@@ -124,27 +124,28 @@ impl PreBoneDeformer {
 
         let mut bones = vec![];
 
-        loop {
+        // a chain can't be longer than the link table, unless damaged links form a cycle
+        for _ in 0..=self.header.links.len() {
             for i in 0..item.deformer.bone_count {
                 bones.push(PreBoneDeformBone {
-                    name: item.deformer.bone_names[i as usize].clone(),
-                    deform: item.deformer.transform[i as usize],
+                    name: item.deformer.bone_names.get(i as usize)?.clone(),
+                    deform: *item.deformer.transform.get(i as usize)?,
                 })
             }
 
             if next.parent_index == -1 {
-                break;
+                return Some(PreBoneDeformMatrices { bones });
             }
 
-            next = &self.header.links[next.parent_index as usize];
-            item = &self.header.items[next.deformer_index as usize];
+            next = self.header.links.get(next.parent_index as usize)?;
+            item = self.header.items.get(next.deformer_index as usize)?;
 
             if item.body_id == to_body_id {
-                break;
+                return Some(PreBoneDeformMatrices { bones });
             }
         }
 
-        Some(PreBoneDeformMatrices { bones })
+        None
     }
 }
 
